@@ -144,7 +144,7 @@ static tOpcodeList const OpcodeList[256] = {
         /* 0x33 */
         { eImplicit, 0, 1, "pulb"},
         /* 0x34 */
-        { eImplicit, 0, 0, "dess"},
+        { eImplicit, 0, 0,  "des"},
         /* 0x35 */
         { eImplicit, 0, 0,  "txs"},
         /* 0x36 */
